@@ -64,6 +64,7 @@ def run(ctx, sess):
                       'payload: the header\'s payload_length for the same buffer that is written/read; header variant: 28 bytes)')
     ctx.rule('C04.7', 'failed read is not consumed: with the result of a read-chain call non-zero, no load of the call\'s output objects (header, payload buffer, core chunk state) is reachable before another read refills them')
     ctx.rule('C04.8', 'buffer freshness: payload bytes in the core read buffer are consumed only after a checked chunk read (or reconstruction) succeeded on that very path; no reader reuses the buffer across calls')
+    ctx.rule('C04.9', 'cache validity: when a read goes straight into state that outlives the call (the cached chunk header of the raw reader), every failing exit after that read marks the state invalid (tag = INVALID), so a later call cannot take the unverified bytes for a loaded header')
     ctx.rule('C04.6', 'error consumption on the read chain: no result of a read-chain function is discarded')
 
     fread_sites = P.callers().get('jls_bk_fread', [])
@@ -191,6 +192,7 @@ def run(ctx, sess):
     _extent_agreement(ctx, sess, P, hdr_off_crc, fh_off_crc)
     _consumption(ctx, P, exc)
     _freshness(ctx, P, exc)
+    _cache_validity(ctx, P)
 
 
 def _footer_le(fn, cmp_block, dpath, size_arg):
@@ -585,3 +587,49 @@ def _freshness(ctx, P, exc, rule='C04.8'):
                'bytes of the read buffer are used at %s without a successful checked read before it on that path (a cached or failed read would be returned as valid)' % r[0].where(),
                r[1].render() if r else None)
     ctx.floor('reader functions using the read buffer', n, 8)
+
+
+def _cache_validity(ctx, P):
+    """reads into instance state: failing exits invalidate"""
+    n = 0
+    # invalidators: functions whose stores are only <param>->hdr.tag = JLS_TAG_INVALID
+    def is_invalidate_store(fn, ev, dpath):
+        if ev.k != 'store':
+            return False
+        lhs, rhs, o = ev.store_parts()
+        p = fn.path(strip_casts(lhs))
+        if p is None or p.last_field() != 'tag' or rhs is None:
+            return False
+        r0 = strip_casts(rhs)
+        return (r0.get('m') == 'JLS_TAG_INVALID' or rhs.get('m') == 'JLS_TAG_INVALID' or const_of(rhs) == 0) and (dpath is None or tuple(p[:-1]) == tuple(dpath))
+    invalidators = set()
+    for g in P.fns_in('src/raw.c'):
+        st = [ev for ev in g.stores() if ev.k == 'store']
+        if st and all(is_invalidate_store(g, ev, None) for ev in st) and not list(g.calls()):
+            invalidators.add(g.name)
+    ctx.note('C04.9: invalidators derived: %s' % sorted(invalidators))
+    for fn, ev in P.callers().get('jls_bk_fread', []):
+        dst = ev.args[1]
+        dpath = fn.path(dst)
+        if dpath is None or dpath.root_kind != 'param' or len(dpath) < 3:
+            continue            # a caller-provided or local buffer: C04.7 / C04.8
+        n += 1
+        ctx.saw(fn, 1)
+
+        def on_event(e2, facts, fn=fn, dpath=dpath):
+            if is_invalidate_store(fn, e2, dpath):
+                return 'stop'
+            if e2.k == 'call' and e2.callee in invalidators:
+                return 'stop'
+            if e2.k == 'ret' and ret_class(fn, e2, facts) == 'nonzero':
+                return 'target'
+            return None
+        # the failing read itself, and every later failure
+        w = None
+        for start_facts in (frozenset(),):
+            w = find_path(fn, ev, on_event, start_facts=start_facts)
+        ctx.ob('C04.9', w is None, fn.name, 'read into %s' % str(dpath), ev.where(),
+               'every failing exit after the read invalidates %s' % str(dpath) if w is None else
+               'a failing exit leaves the bytes just read in %s with a valid-looking tag: the next call that finds the header "loaded" uses a header whose CRC did not match' % str(dpath),
+               w.render() if w else None)
+    ctx.floor('reads into instance state', n, 1)
